@@ -107,6 +107,10 @@ def cases(sh, tier):
                 yield {"a": s, "p": p, "axis": NAMES[p], "new": new, "nm": name, "lr": lr, "issorted": None, "form": "nd", "again": "new_inplace"}
                 yield {"a": s, "p": p, "axis": p, "new": new, "nm": name, "lr": lr, "issorted": None, "form": "nd", "again": "relabel_inplace"}
         yield {"a": s, "p": p, "axis": NAMES[p], "new": new, "nm": name, "lr": None, "issorted": None, "form": "like"}
+        if s["vk"] == "f" and name in ("identity", "nodes_rev", "dup", "sorted_all", "unsorted"):
+            # an infinite value in the data: exact at its own node, fills outside, (cells strictly between nodes of that fibre are not compared)
+            yield {"a": s, "p": p, "axis": NAMES[p], "new": new, "nm": name, "lr": None, "issorted": None, "form": "list", "inf": 2}
+            yield {"a": s, "p": p, "axis": p, "new": new, "nm": name, "lr": [-1.0, -2.0], "issorted": None, "form": "list", "inf": 0}
 
 
 def _ds_cases(j):
@@ -122,7 +126,11 @@ def state_key(case):
     return case.get("a") or case.get("dsx")
 
 
+UNPINNED = []      # filled by ref_interp: positions of the result the statement does not pin down (see there)
+
+
 def ref_interp(ra, p, new, left, right):
+    del UNPINNED[:]
     lab = ra.labels[p]
     order = sorted(range(len(lab)), key=lambda i: lab[i])
     xp = np.array([lab[i] for i in order], dtype=float)
@@ -138,13 +146,17 @@ def ref_interp(ra, p, new, left, right):
                 pos[i] = opos[jj]
             pos[p] = q
             fib.append(float(ra.vals[tuple(pos)]))
-        res = np.interp(np.array(new, dtype=float), xp, np.array(fib), left=left, right=right) if len(new) else []
+        with np.errstate(invalid="ignore"):
+            res = np.interp(np.array(new, dtype=float), xp, np.array(fib), left=left, right=right) if len(new) else []
+        hasinf = any(np.isinf(f) for f in fib)
         for r, v in enumerate(res):
             pos = [0] * ra.ndim
             for jj, i in enumerate(others):
                 pos[i] = opos[jj]
             pos[p] = r
             out[tuple(pos)] = v
+            if hasinf and len(xp) and xp[0] < new[r] < xp[-1] and float(new[r]) not in [float(x) for x in xp]:
+                UNPINNED.append(tuple(pos))     # between two nodes of a fibre holding an infinite value: inf - inf arithmetic, not pinned down
     labels = list(ra.labels)
     labels[p] = list(new)
     return R.RA(ra.dims, labels, out, ra.attrs)
@@ -156,6 +168,12 @@ def check(case):
     s = case["a"]
     ra = D.build_ref(s)
     a = D.build_impl(s)
+    if case.get("inf") is not None and a.size:
+        k = case["inf"] % a.size
+        a.values.reshape(-1)[k] = np.inf if case["inf"] else -np.inf      # 'slice' variant: a.values may be a view, reshape(-1) of a view copies
+        if a.values.reshape(-1)[k] != (np.inf if case["inf"] else -np.inf):
+            a.values[np.unravel_index(k, a.shape)] = np.inf if case["inf"] else -np.inf
+        ra.vals.reshape(-1)[k] = np.inf if case["inf"] else -np.inf
     before = common.snap(a)
     p, new = case["p"], case["new"]
     left, right = (float("nan"), float("nan")) if case["lr"] is None else case["lr"]
@@ -177,6 +195,10 @@ def check(case):
         return bad(what + " modified its operand")
     if isinstance(got, Raised):
         return bad("{} on labels {} raised {}".format(what, ra.labels[p], got), klass="unexpected-exception")
+    if UNPINNED and isinstance(got, DimArray) and got.shape == exp.shape:
+        got = got.copy()
+        for pos in UNPINNED:
+            got.values[pos] = exp.vals[pos]
     m = D.compare(got, exp, rtol=1e-12, attrs=True, what=what + " on labels {}".format(ra.labels[p]))
     if m:
         return bad(m)
